@@ -593,6 +593,12 @@ struct World : CallbackSink
 		Frame & f = frames.back();
 		log("call u" + num(uid) + " cb" + num(cbid) + args.str());
 		count("callback_calls");
+		// the object that runs is the callback STORED in the list (not a copy made for the call: a stateful callable would lose its state)
+		{
+			typename Cfg::L * l = Cfg::peek(store, f.li);
+			if(l && ! Access::holdsCallbackObject(*l, invokedInstance())) { fail("invoke:invoked-object-is-not-the-stored-callback", "cb" + num(cbid) + " of L" + num(f.li) + " was invoked on an object that is not the one stored in the list (a copy?)"); return; }
+			count("invoked_object_identity_checked");
+		}
 		bool argsOk = args.n == f.expect.n;
 		for(int i = 0; argsOk && i < args.n; ++i) argsOk = args.fp[i] == f.expect.fp[i];
 		if(! argsOk) { fail("invoke:arguments", "cb" + num(cbid) + " received " + args.str() + ", model says " + f.expect.str()); return; }
